@@ -272,6 +272,9 @@ func (e *Engine) VerifyFunc(fn *ssa.Function, fc *FuncContract) (v *FnVerifier) 
 	for _, t := range strings.Fields(fc.Opts["track"]) {
 		v.setHeap(st, v.ghostKey("ncalls!"+t, "Int"), "0")
 	}
+	if v.trackEnd() {
+		v.setHeap(st, v.ghostKey("hitend", "(Array Int Bool)"), "((as const (Array Int Bool)) false)")
+	}
 	nk := v.ghostKey("nrecv", "(Array Int Int)")
 	v.setHeap(st, nk, v.heap(st, nk))
 	o := v.addObl(st, "cover", "entry", "false", "precondition is satisfiable", fc.Serves, fn.Pos())
